@@ -96,6 +96,7 @@ def bfun(name, Z, B, method_call=False):
 
 
 def fun_cases(B, recs, rep, stats):
+    groups = {}
     for r in recs:
         name, x0, e, d = r['fn'], r['x0'][0] / r['x0'][1], bq(r['e']), 2.0 ** -r['sh']
         scale = max(abs(x0), 1.0)              # perturbation of RELATIVE size delta
@@ -113,6 +114,8 @@ def fun_cases(B, recs, rep, stats):
         if not np.all(np.isfinite(want)):
             stats['skipped'] += 1
             continue
+        if name != 'powz':
+            groups.setdefault(name, []).append((v, want, max(abs(p1), abs(p2), 1.0) * max(1.0, 1.0 / max(abs(x0), 0.25))))
         for shape in (None, (3,)):
             try:
                 with np.errstate(all='ignore'):
@@ -138,6 +141,32 @@ def fun_cases(B, recs, rep, stats):
                     rep.violation('reduce:' + name, dict(fn=name, x0=x0, z1=[z1.real, z1.imag], got=g[:, 0].tolist(), want=[c.real, c.imag]),
                                   'Bicomplex.%s(z1=%r, z2=0) = %s does not reduce to the complex function value %r' % (name, z1, g[:, 0].tolist(), c))
                     break
+    mixed_arrays(B, groups, rep, stats)
+
+
+def mixed_arrays(B, groups, rep, stats):
+    """all cases of one function as ONE array (base points of both signs and all sizes side by side), through the operator /
+    numpy function and through the method: element k must still be the extension at element k"""
+    for name, items in sorted(groups.items()):
+        vs = np.array([it[0] for it in items])
+        want = np.array([it[1] for it in items]).T
+        tol = 1e4 * EPS * np.array([it[2] for it in items])
+        for style in (False, True):
+            try:
+                with np.errstate(all='ignore'):
+                    Z = B(vs[:, 0] + 1j * vs[:, 1], vs[:, 2] + 1j * vs[:, 3])
+                    got = comps(bfun(name, Z, B, method_call=style)).reshape(4, -1)
+            except Exception as ex:
+                rep.violation('fun-raises:array:' + name, dict(fn=name), 'Bicomplex %s raised %r on a mixed array' % (name, ex))
+                break
+            stats['fun'] += 1
+            bad = np.abs(got - want).max(axis=0) > tol
+            if bad.any():
+                k = int(np.argmax(bad))
+                rep.violation('fun-array:' + name, dict(fn=name, element=k, argument=vs[k].tolist(), got=got[:, k].tolist(), want=want[:, k].tolist(), via='method' if style else 'operator/numpy'),
+                              'Bicomplex.%s on an array of %d different arguments (%s): element %d (argument %s) is %s, holomorphic extension %s' % (
+                                  name, len(items), 'method call' if style else 'operator / numpy call', k, vs[k].tolist(), got[:, k].tolist(), want[:, k].tolist()))
+                break
 
 
 def hol_cases(B, progs, dirs, tier, seed, rep, stats):
